@@ -608,18 +608,23 @@ def oracle_c03(run, A, V):
                 got = ari.decode_reply(l["line"])[2][1]
             except Exception:
                 got = "?"
-        # must forward: submitted inside subscribe(r), or after a successful subscribe(r) and before the matching unsubscribe begins
+        # must forward: the call reads the id while the forwarding window of r is open — from the begin of
+        # subscribe(r) to its end if it raises, or, if it returns normally, to the begin of the matching unsubscribe().
+        # (A call submitted by ANOTHER thread shortly before unsubscribe() begins may read after it: then nothing is
+        # required — the submission races with the unsubscription; calls made by the subscribing worker from inside
+        # subscribe() always read inside the window.)
         must = None
+        rd = l["read"]
         for c in sub_windows.get(item, []):
-            if c["begin"] < t and (c["end"] is None or t <= c["end"]) or (c["begin"] == t and l["tid"] == c["tid"]):
+            if rd is None or rd < c["begin"]:
+                continue
+            if c["end"] is None or rd <= c["end"]:
                 must = c["rid"]
-            elif c["end"] is not None and c["out"] == "ok" and c["end"] < t:
+            elif c["out"] == "ok":
                 nxt = [u for u in A.calls if u["item"] == item and u["m"] == "usb" and u["begin"] > c["end"]]
-                nxt_sub = [u for u in A.calls if u["item"] == item and u["m"] in ("sub", "snap") and u["begin"] > c["end"]]
-                if (not nxt or t < nxt[0]["begin"]) and not [u for u in nxt_sub if u["begin"] <= t]:
-                    # the read must also precede the unsubscribe call's begin to be inside the window
-                    if l["read"] is not None and (not nxt or l["read"] < nxt[0]["begin"]):
-                        must = c["rid"]
+                later = [u for u in A.calls if u["item"] == item and u["m"] in ("sub", "snap") and u["begin"] > c["end"] and u["begin"] <= rd]
+                if (not nxt or rd < nxt[0]["begin"]) and not later:
+                    must = c["rid"]
         if must is not None and got != must:
             V("event-lost", "event for %s submitted at t=%d inside the subscription %s was %s" % (item, t, must, "dropped" if got is None else "tagged " + str(got)))
         # must drop: never subscribed, or unsubscription fully processed
